@@ -8,10 +8,13 @@ import (
 	"os"
 	"reflect"
 	"runtime"
+	"sort"
 	"strings"
+	"sync"
 	"testing"
 	"testing/synctest"
 	"time"
+	"unsafe"
 
 	"github.com/uhppoted/uhppote-core/types"
 	"github.com/uhppoted/uhppote-core/uhppote"
@@ -33,6 +36,8 @@ type Result struct {
 	SimTime     time.Duration
 	Stats       map[string]int
 	Races       int
+	RaceSig     string
+	RaceLog     string
 	LeakStacks  string
 }
 
@@ -68,6 +73,8 @@ func Run(t *testing.T, sc *Scenario) *Result {
 		time.Local = time.UTC
 	}
 	defer func() { time.Local = saved }()
+	parseDates = sc.ParseDates
+	dateNotes = nil
 
 	var sim *vnet.Sim
 	func() {
@@ -79,8 +86,8 @@ func Run(t *testing.T, sc *Scenario) *Result {
 				res.LeakStacks = leakedStacks(string(buf[:n]))
 			}
 		}()
+		res.G0 = runtime.NumGoroutine()
 		synctest.Test(t, func(t *testing.T) {
-			res.G0 = runtime.NumGoroutine()
 			h := &harness{sc: sc, qs: map[[2]int]chan os.Signal{}}
 			hip, _ := netip.ParseAddr(sc.HostIP)
 			var bc []netip.Addr
@@ -119,14 +126,20 @@ func Run(t *testing.T, sc *Scenario) *Result {
 			}
 			sim.Run()
 			synctest.Wait()
-			res.G1 = runtime.NumGoroutine()
-			if res.G1 > res.G0+0 {
-				buf := make([]byte, 1<<20)
-				n := runtime.Stack(buf, true)
-				res.LeakStacks = leakedStacks(string(buf[:n]))
-			}
 		})
 	}()
+	// every goroutine of the bubble has exited by now (or the bubble panicked); runtime helpers
+	// (finalizers, cleanups) are counted while they run, so a surplus must persist to count
+	res.G1 = runtime.NumGoroutine()
+	for i := 0; i < 200 && res.G1 > res.G0; i++ {
+		time.Sleep(time.Millisecond)
+		res.G1 = runtime.NumGoroutine()
+	}
+	if res.G1 > res.G0 && res.LeakStacks == "" {
+		buf := make([]byte, 1<<20)
+		n := runtime.Stack(buf, true)
+		res.LeakStacks = string(buf[:n])
+	}
 
 	if sim != nil {
 		res.Trace = sim.Trace
@@ -139,7 +152,76 @@ func Run(t *testing.T, sc *Scenario) *Result {
 		res.Stats = sim.Stats
 	}
 	res.Races = vnet.RaceErrors() - races0
+	if res.Races > 0 {
+		res.RaceLog, res.RaceSig = raceReport()
+	}
 	return res
+}
+
+var raceLogOff int64
+
+// raceReport reads what the race detector appended to its log (GORACE=log_path=...) since the last call.
+func raceReport() (log string, sig string) {
+	path := ""
+	for _, kv := range strings.Fields(os.Getenv("GORACE")) {
+		if v, ok := strings.CutPrefix(kv, "log_path="); ok {
+			path = fmt.Sprintf("%s.%d", v, os.Getpid())
+		}
+	}
+	if path == "" {
+		return "(no GORACE log_path)", "unlocated"
+	}
+	b, err := os.ReadFile(path)
+	if err != nil {
+		return err.Error(), "unlocated"
+	}
+	if int64(len(b)) > raceLogOff {
+		log = string(b[raceLogOff:])
+		raceLogOff = int64(len(b))
+	}
+	// signature: the first library frame of each of the two conflicting accesses
+	var locs []string
+	blocks := strings.Split(log, "\n\n")
+	for _, blk := range blocks {
+		head := strings.TrimSpace(strings.SplitN(blk, "\n", 2)[0])
+		if !(strings.Contains(head, " at 0x") && (strings.HasPrefix(head, "Read") || strings.HasPrefix(head, "Write") || strings.HasPrefix(head, "Previous"))) {
+			if !strings.Contains(blk, "WARNING: DATA RACE") {
+				continue
+			}
+		}
+		for _, ln := range strings.Split(blk, "\n") {
+			ln = strings.TrimSpace(ln)
+			if strings.HasPrefix(ln, "/repo/") {
+				loc := strings.Fields(ln)[0]
+				locs = append(locs, strings.TrimPrefix(loc, "/repo/"))
+				break
+			}
+		}
+		if len(locs) == 2 {
+			break
+		}
+	}
+	sort.Strings(locs)
+	if len(locs) == 0 {
+		return log, "unlocated"
+	}
+	if len(log) > 6000 {
+		log = log[:6000]
+	}
+	return log, strings.Join(locs, "+")
+}
+
+// libraryGoroutines counts the goroutines (other than harness tasks) whose stack is in library code.
+func libraryGoroutines() int {
+	buf := make([]byte, 1<<20)
+	n := runtime.Stack(buf, true)
+	c := 0
+	for _, g := range strings.Split(string(buf[:n]), "\n\n") {
+		if strings.Contains(g, "uhppote-core/") && !strings.Contains(g, "engine.(*harness).task(") {
+			c++
+		}
+	}
+	return c
 }
 
 // leakedStacks keeps the goroutines of a full dump that sit in library code.
@@ -217,6 +299,7 @@ type kept struct {
 func (h *harness) task(ti int) {
 	tk := &h.sc.Tasks[ti]
 	var keep []kept
+	var lastCard *types.Card
 	g0 := 0
 	for si := range tk.Steps {
 		st := &tk.Steps[si]
@@ -236,10 +319,20 @@ func (h *harness) task(ti int) {
 			if argsChanged != "" {
 				h.point("arg-mutated", -1, argsChanged)
 			}
+			dateMu.Lock()
+			notes := dateNotes
+			dateNotes = nil
+			dateMu.Unlock()
+			for _, n := range notes {
+				h.point("date-shift", -1, n)
+			}
+			if c, ok := val.(*types.Card); ok && c != nil {
+				lastCard = c
+			}
 			if p := render(val); p != "" {
 				h.point("render-panic", -1, p)
 			}
-			if st.Scribble {
+			if st.Scribble && rec.Obs.Err == "" && !rec.Obs.Nil {
 				h.sim.ScribbleStep(si, 0xa5)
 				if rec2 := observe(st.Op, val, nil); !reflect.DeepEqual(rec2.Obs.F, rec.Obs.F) || !reflect.DeepEqual(rec2.List, rec.List) {
 					h.point("result-changed", -1, map[string]any{"before": rec, "after": rec2, "when": "buffers overwritten"})
@@ -258,11 +351,32 @@ func (h *harness) task(ti int) {
 			}
 			if h.sc.Checkpoints {
 				open := h.sim.Quiesce("post")
-				h.point("checkpoint", -1, map[string]int{"goroutines": runtime.NumGoroutine() - g0, "sockets": open})
+				n := runtime.NumGoroutine()
+				for i := 0; i < 2000 && n > g0; i++ {
+					runtime.Gosched()
+					n = runtime.NumGoroutine()
+				}
+				extra := 0
+				if n > g0 {
+					// runtime helpers (finalizers, cleanups) are counted while they run: only goroutines
+					// that sit in library code are the call's
+					extra = libraryGoroutines()
+				}
+				h.point("checkpoint", -1, map[string]int{"goroutines": extra, "sockets": open})
 			}
 
 		case "listen":
 			h.listen(ti, si, st)
+
+		case "putback":
+			// write the card that was read last back to the controller, as returned
+			h.point("call-begin", si, nil)
+			if lastCard != nil {
+				ok, err := h.clients[st.Client].PutCard(st.Args.Serial, *lastCard)
+				h.point("putback-end", -1, observe(model.PutCard, ok, err))
+			} else {
+				h.point("putback-skipped", -1, nil)
+			}
 
 		case "stop":
 			h.point("stop", si, nil)
@@ -289,26 +403,20 @@ func (h *harness) task(ti int) {
 		case "mutate-devlist":
 			h.point("mutate-devlist", si, nil)
 			m := h.clients[st.Client].DeviceList()
-			for k, d := range m {
+			var keys []uint32
+			for k := range m {
+				keys = append(keys, k)
+			}
+			sort.Slice(keys, func(i, j int) bool { return keys[i] < keys[j] })
+			for _, k := range keys {
+				d := m[k]
 				d.Address = types.ControllerAddr{AddrPort: netip.MustParseAddrPort("10.66.66.66:6666")}
 				d.Protocol = "tcp"
-				for j := range d.Doors {
-					d.Doors[j] = "mutated"
-				}
+				d.DeviceID ^= 0x5a5a5a5a
 				m[k] = d
 				m[k^0x5a5a5a5a] = d
-			}
-			for k := range m {
 				if st.Delay != 0 {
 					delete(m, k)
-				}
-			}
-			// door names of the configured devices must not have changed
-			for id, d := range h.clients[st.Client].DeviceList() {
-				for _, name := range d.Doors {
-					if name == "mutated" {
-						h.point("config-aliased", -1, fmt.Sprintf("device %d door names changed through DeviceList()", id))
-					}
 				}
 			}
 
@@ -334,10 +442,12 @@ func (h *harness) task(ti int) {
 
 type lst struct {
 	h     *harness
+	id    [2]int
 	st    *Step
 	n     int
 	kept  []*types.Status
 	first []map[string]string
+	word  uint64 // race detector: the callback hands the status over to whoever reads it later
 }
 
 func (l *lst) hold() {
@@ -348,14 +458,15 @@ func (l *lst) hold() {
 }
 
 func (l *lst) OnConnected() {
-	l.h.point("on-connected", -1, nil)
+	l.h.point("on-connected", -1, map[string]any{"l": l.id})
 }
 
 func (l *lst) OnEvent(s *types.Status) {
 	o := observeStatus(s)
 	l.kept = append(l.kept, s)
 	l.first = append(l.first, o)
-	l.h.point("on-event", -1, o)
+	vnet.HandOver(unsafe.Pointer(&l.word))
+	l.h.point("on-event", -1, map[string]any{"l": l.id, "obs": o})
 	if s != nil {
 		if p := render(s); p != "" {
 			l.h.point("render-panic", -1, p)
@@ -369,13 +480,13 @@ func (l *lst) OnError(err error) bool {
 	if err != nil {
 		msg = err.Error()
 	}
-	l.h.point("on-error", -1, msg)
+	l.h.point("on-error", -1, map[string]any{"l": l.id, "err": msg})
 	l.hold()
 	return true
 }
 
 func (h *harness) listen(ti, si int, st *Step) {
-	l := &lst{h: h, st: st}
+	l := &lst{h: h, st: st, id: [2]int{ti, si}}
 	q := h.qs[[2]int{ti, si}]
 	h.point("listen-begin", si, nil)
 	if st.StopAfter > 0 {
@@ -404,10 +515,11 @@ func (h *harness) listen(ti, si int, st *Step) {
 		msg = err.Error()
 	}
 	h.point("listen-end", -1, msg)
+	vnet.TakeOver(unsafe.Pointer(&l.word))
 	h.sim.ScribbleStep(si, 0xa5)
 	for i, s := range l.kept {
 		if o := observeStatus(s); !reflect.DeepEqual(o, l.first[i]) {
-			h.point("status-changed", -1, map[string]any{"n": i, "before": l.first[i], "after": o})
+			h.point("status-changed", -1, map[string]any{"l": l.id, "n": i, "before": l.first[i], "after": o})
 		}
 	}
 }
@@ -430,11 +542,36 @@ func shortStack() string {
 
 // ---- argument construction ------------------------------------------------------------------
 
+var (
+	parseDates bool     // set per run (C13)
+	dateNotes  []string // constructed dates that do not report their own year, month and day
+	dateMu     sync.Mutex
+)
+
 func toDate(d model.Date) types.Date {
 	if d.Zero {
 		return types.Date{}
 	}
-	return types.ToDate(d.Y, time.Month(d.M), d.D)
+	var v types.Date
+	how := "ToDate"
+	if parseDates && d.Y >= 0 && d.Y <= 9999 && d.M >= 1 && d.M <= 12 && d.D >= 1 && d.D <= 31 {
+		how = "ParseDate"
+		var err error
+		if v, err = types.ParseDate(d.String()); err != nil {
+			v = types.ToDate(d.Y, time.Month(d.M), d.D)
+			how = "ToDate"
+		}
+	} else {
+		v = types.ToDate(d.Y, time.Month(d.M), d.D)
+	}
+	if model.ValidDate(d.Y, d.M, d.D) && d.Y >= 1 && d.Y <= 9999 {
+		if got := obsDate(v); got != d.String() {
+			dateMu.Lock()
+			dateNotes = append(dateNotes, fmt.Sprintf("%s(%s) reports %s in zone %s", how, d.String(), got, time.Local))
+			dateMu.Unlock()
+		}
+	}
+	return v
 }
 
 func toWeekdays(m map[int]bool) types.Weekdays {
